@@ -47,6 +47,8 @@ type lockWalker struct {
 	pkgs     map[string]bool // names under which the file imports packages (x.F() with x a package is not a method call)
 	skipCall *ast.CallExpr   // the call of a go / defer statement: it does not run here
 	calls    []callLock      // after resolution: (callee, lock the callee takes, as named at the call site)
+	callees  []string        // after resolution: the traced functions it calls directly
+	in       *inst
 }
 
 type callLock struct{ callee, lock string }
@@ -96,7 +98,7 @@ func (w *lockWalker) expr(e ast.Node) {
 				}
 				// a call of a method / of another package's function: resolved against the traces later
 				if x != w.skipCall {
-					if id, ok := f.X.(*ast.Ident); !ok || !w.pkgs[id.Name] {
+					if id, ok := f.X.(*ast.Ident); !ok || id.Obj != nil || !w.pkgs[id.Name] {
 						w.emit(tCall, f.Sel.Name+"|"+show(f.X))
 					}
 				}
@@ -259,13 +261,18 @@ func (w *lockWalker) clauses(b *ast.BlockStmt) {
 	w.emit(tClose, "switch")
 }
 
-// lockTraceOf returns the trace of one function.
-func lockTraceOf(name string, fd *ast.FuncDecl, pkgs map[string]bool) *lockWalker {
-	w := &lockWalker{fn: name, pkgs: pkgs}
-	if fd.Recv != nil && len(fd.Recv.List) == 1 && len(fd.Recv.List[0].Names) == 1 {
-		w.recv = fd.Recv.List[0].Names[0].Name
+// lockTraceOf returns the trace of one function, taken from a private copy in canonical spelling (canon.go:
+// receiver = c, every other local a placeholder that writeLockTraces numbers in order of first appearance).
+func lockTraceOf(sf *srcFunc, pkgs map[string]bool) *lockWalker {
+	in := instantiate(sf).asTarget()
+	w := &lockWalker{fn: sf.key, pkgs: pkgs, in: in}
+	if sf.recvName != "" && sf.recvName != "_" {
+		w.recv = "c"
 	}
-	w.block(fd.Body)
+	saved := fset
+	fset = in.fset
+	w.block(in.fd.Body)
+	fset = saved
 	return w
 }
 
@@ -322,6 +329,13 @@ func resolveCalls(traces []*lockWalker, pkgs, globals map[string]bool) {
 				key = "." + name
 			}
 			for _, cal := range byName[key] {
+				dup := false
+				for _, c := range w.callees {
+					dup = dup || c == cal.fn
+				}
+				if !dup {
+					w.callees = append(w.callees, cal.fn)
+				}
 				for _, l := range own[cal] {
 					base := l
 					if j := strings.Index(l, "."); j >= 0 {
@@ -345,15 +359,18 @@ func resolveCalls(traces []*lockWalker, pkgs, globals map[string]bool) {
 
 func writeLockTraces(sb *strings.Builder, traces []*lockWalker) int {
 	n := 0
-	sb.WriteString("/-- lock traces: (function, tokens); token kinds 0 lock, 1 unlock, 2 deferred unlock, 3 open block,\n    4 close block, 5 return, 6 break/continue, 7 goto, 8 label, 9 shared access needing the named lock,\n    10 case, 11 panic, 12 call of a function of these files that locks the named mutex itself -/\n")
+	tables := map[*lockWalker]map[string]string{}
+	sb.WriteString("/-- lock traces: (function, tokens); token kinds 0 lock, 1 unlock, 2 deferred unlock, 3 open block,\n    4 close block, 5 return, 6 break/continue, 7 goto, 8 label, 9 shared access needing the named lock,\n    10 case, 11 panic, 12 call of a function of these files that locks the named mutex itself.\n    Sorted by function; locals are numbered per function in order of first appearance. -/\n")
 	sb.WriteString("def lockTraces : List (String × List (Nat × String)) := [\n")
 	for i, w := range traces {
+		tb := map[string]string{}
+		tables[w] = tb
 		fmt.Fprintf(sb, "  (%s, [", leanStr(w.fn))
 		for j, t := range w.out {
 			if j > 0 {
 				sb.WriteString(", ")
 			}
-			fmt.Fprintf(sb, "(%d, %s)", t.k, leanStr(t.arg))
+			fmt.Fprintf(sb, "(%d, %s)", t.k, leanStr(numberStr(t.arg, tb)))
 		}
 		sb.WriteString("])")
 		if i < len(traces)-1 {
@@ -372,7 +389,7 @@ func writeLockTraces(sb *strings.Builder, traces []*lockWalker) int {
 				sb.WriteString(",\n")
 			}
 			first = false
-			fmt.Fprintf(sb, "  (%s, %s, %s)", leanStr(a.fn), leanStr(a.what), leanStr(a.lock))
+			fmt.Fprintf(sb, "  (%s, %s, %s)", leanStr(a.fn), leanStr(numberStr(a.what, tables[w])), leanStr(numberStr(a.lock, tables[w])))
 			n++
 		}
 	}
@@ -386,7 +403,20 @@ func writeLockTraces(sb *strings.Builder, traces []*lockWalker) int {
 				sb.WriteString(",\n")
 			}
 			first = false
-			fmt.Fprintf(sb, "  (%s, %s, %s)", leanStr(w.fn), leanStr(c.callee), leanStr(c.lock))
+			fmt.Fprintf(sb, "  (%s, %s, %s)", leanStr(w.fn), leanStr(c.callee), leanStr(numberStr(c.lock, tables[w])))
+		}
+	}
+	sb.WriteString("\n]\n\n")
+	sb.WriteString("/-- direct calls between traced functions: (caller, callee). Lets a theorem speak of `the function that\n    ProcessGetData calls` instead of naming an unexported function. -/\n")
+	sb.WriteString("def callGraph : List (String × String) := [\n")
+	first = true
+	for _, w := range traces {
+		for _, c := range w.callees {
+			if !first {
+				sb.WriteString(",\n")
+			}
+			first = false
+			fmt.Fprintf(sb, "  (%s, %s)", leanStr(w.fn), leanStr(c))
 		}
 	}
 	sb.WriteString("\n]\n\n")
